@@ -41,6 +41,17 @@ PROP = {
              "model's. Size-field boundaries of the serialiser: real transactions whose in_msg body is extended by a chain so that the "
              "transaction has exactly 255 / 256 / 257 distinct cells (through the model, both decoder modes) and 65535 / 65536 / 65537 "
              "cells (thorough tier, implementation oracles only). "
+             "Levels and the hasher cache (c16.lvl, ~76 cases per seed in the quick tier): messages and transactions of NON-ZERO level - a "
+             "pruned branch with mask 1..7 (optionally under a Merkle proof / update cell) 0..6 cells below the body reference, the "
+             "inline body's reference or the init code, the record below an enclosing cell with siblings, real transactions with such a "
+             "message grafted as in_msg (masks recomputed up to the root) and that in_msg as the record - with the decoder's hasher "
+             "warmed in 8 ways: nothing, the enclosing tree first, the siblings first, the record itself (Hash, HashString), every cell "
+             "last-to-first / first-to-last, the record hashed, its cursors moved and reset, hashed again, the enclosing transaction / "
+             "the record decoded first with the same decoder. Every identity-hash entry point must give the same value: Cell.Hash, "
+             "Hash256, HashString, Hasher.Hash (twice), Hasher.HashString, Message.Hash(false) (also after Hash(true)), Hash(true) "
+             "of non-ext-in, Transaction.Hash, the in_msg's Hash(false), the in_msg decoded again and hashed by the same hasher, and "
+             "decoding without hasher; the value is compared with the model's level-3 representation hash of the source cell. "
+             "Message histories start with fixed good/bad/observe schedules (a source that fails in the info, anywhere, or only in the body). "
              "Each case is decoded twice by the real code "
              "(tlb.Unmarshal and tlb.NewDecoder() with a pre-warmed hasher cache); compared with the extracted model (Gallina SHA-256): "
              "ok/err, kind, Hash(false), Hash(true), init form, body placement/bits/reference count, re-encoded source and destination, "
